@@ -78,6 +78,7 @@ def main():
     expand_plates(data)
 
     others = {}
+    restored = {}
     # update the parameters of the models first
     if arg.checkpoint is not None:
         for checkpoint_file in arg.checkpoint:
@@ -90,6 +91,7 @@ def main():
                     else:
                         others[param['id']] = param
                 update_parameters(data, tensors)
+                restored.update(tensors)
     dic = {}
     try:
         for element in data:
@@ -102,6 +104,21 @@ def main():
                 and hasattr(obj, "load_state_dict")
             ):
                 obj.load_state_dict(others[obj.id])
+                # parameters created by the objects themselves (e.g. the weights
+                # of a RealNVP network) are saved in the checkpoint but do not
+                # appear in the JSON file: restore them too
+                for parameter in getattr(obj, "parameters", []):
+                    saved = restored.get(getattr(parameter, "id", None))
+                    if saved is not None and "tensor" in saved:
+                        tensor = torch.as_tensor(
+                            saved["tensor"], dtype=parameter.tensor.dtype
+                        )
+                        if tensor.shape == parameter.tensor.shape and not torch.equal(
+                            tensor, parameter.tensor
+                        ):
+                            with torch.no_grad():
+                                parameter.tensor.copy_(tensor)
+                            parameter.fire_parameter_changed()
 
             if isinstance(obj, Runnable) and not arg.dry:
                 obj.run()
